@@ -189,7 +189,11 @@ _tftp = {}
 _http = {}
 _tmp = None
 
-TFTP_TPL = ("client={{ request_info.client_address|join(',') }}\nserver={{ request_info.server_address|join(',') }}\n"
+LIB_TPL = ("{% macro who() %}{% if request_info is defined %}sees {{ request_info.client_address|join(',') }} {{ request_info.uri }}"
+           "{% elif id is defined or data is defined %}sees id/data{% else %}nothing{% endif %}{% endmacro %}")
+# a macro library imported without context must see NOTHING of the request (per-request data must not be parked in
+# engine-wide state such as Environment.globals or a cached module)
+TFTP_TPL = ("{% import 'lib.txt' as lib %}lib={{ lib.who() }}\nclient={{ request_info.client_address|join(',') }}\nserver={{ request_info.server_address|join(',') }}\n"
             "uri={{ request_info.uri }}\nkeys={{ request_info.keys()|sort|join(',') }}\n")
 HTTP_TPL = (TFTP_TPL + "method={{ request_info.method }}\n"
             "{% for k, v in request_info.headers.items() %}hdr={{ k }}={{ v }}\n{% endfor %}"
@@ -208,6 +212,8 @@ def _tmpdir():
             f.write(TFTP_TPL)
         with open(os.path.join(_tmp, "http.txt"), "w") as f:
             f.write(HTTP_TPL)
+        with open(os.path.join(_tmp, "lib.txt"), "w") as f:
+            f.write(LIB_TPL)
     return _tmp
 
 
@@ -377,7 +383,7 @@ def http_request(c):
     try:
         s.connect((dst, sockname[1]))
         cport = s.getsockname()[1]
-        req = ("%s %s HTTP/1.0\r\n" % (c["method"], c["name"].decode("latin-1"))
+        req = ("%s %s HTTP/1.%d\r\n" % (c["method"], c["name"].decode("latin-1"), c.get("httpver") or 0)
                + "".join("%s: %s\r\n" % kv for kv in c["headers"]) + "\r\n")
         s.sendall(req.encode("latin-1"))
         while True:
@@ -430,7 +436,7 @@ class C10(Check):
                 yield bind, fam
 
     def mk(self, proto, bind, fam, pktinfo, handlers, stem=b"", tail=b"", mail=False, method="GET", headers=None,
-           restart=None, debug=False, repeat=None, anc_mode=None, falsy_ctx=False):
+           restart=None, debug=False, repeat=None, anc_mode=None, falsy_ctx=False, httpver=0, host="one"):
         rid = next(self._seq)
         token = b"id%dx" % rid
         if proto in (1, 3):
@@ -441,9 +447,12 @@ class C10(Check):
             name = stem + b"t/tftp.txt"
         if proto == 3:
             name = b"/t/http.txt"
-        hd = [("Host", "verif"), ("X-Verif-Id", str(rid))] + list(headers or [])
+        # requests a standard client library never produces: no Host field, two, an empty one - with HTTP/1.0 and HTTP/1.1
+        hosts = {"one": [("Host", "verif")], "none": [], "two": [("Host", "verif"), ("Host", "other:81")], "empty": [("Host", "")],
+                 "mixed": [("host", "a"), ("HOST", "b")]}[host]
+        hd = hosts[:1] + [("X-Verif-Id", str(rid))] + list(headers or []) + hosts[1:]
         return {"proto": proto, "bind": bind, "fam": fam, "pktinfo": pktinfo, "rid": rid, "name": name,
-                "mail": mail, "method": method, "headers": hd if proto in (1, 3) else [], "restart": restart, "debug": debug, "repeat": repeat, "anc_mode": anc_mode, "falsy_ctx": falsy_ctx,
+                "mail": mail, "method": method, "headers": hd if proto in (1, 3) else [], "restart": restart, "debug": debug, "repeat": repeat, "anc_mode": anc_mode, "falsy_ctx": falsy_ctx, "httpver": httpver,
                 "handlers": [("h%d-%d" % (i, rid),) + ((bool(a[0]), a[1]) if isinstance(a, tuple) else (bool(a), "ok"))
                              for i, a in enumerate(handlers)]}
 
@@ -518,6 +527,13 @@ class C10(Check):
                 yield self.mk(1, "::", 6, True, v, tail=b"/inf?x=1", debug="info")
             yield self.mk(2, "::", 6, True, (True,), debug=lvl)
             yield self.mk(3, "::", 6, True, (True,), debug=lvl, headers=[("X-Rep", "1")])
+        # HTTP/1.0 and HTTP/1.1 request lines with one, no, two, an empty Host field: every one is dispatched like any other
+        for ver in (0, 1):
+            for host in ("one", "none", "two", "empty", "mixed"):
+                for v in some + [(False, False)]:
+                    yield self.mk(1, "::", 6, True, v, tail=b"/hv", httpver=ver, host=host)
+                yield self.mk(1, V6, 6, True, (False, True), tail=b"/hv", httpver=ver, host=host, method="POST", debug=True)
+                yield self.mk(3, "::", 4, True, (True,), httpver=ver, host=host, repeat=2)
         # stop() and start() on ONE server object (bind_port=0: new port): the handler must see the new address
         for bind, fam in (("::", 6), ("::", 4), (V6, 6)):
             for pk in (True, False):
@@ -710,6 +726,7 @@ class C10(Check):
         want = ["client_address", "server_address", "uri"] + (["headers", "method"] if o["proto"] == 3 else [])
         if kv.get("keys", "") != ",".join(sorted(want)):
             return [[b"keys", [1, kv.get("keys", "").encode()]]]
+        lib_note = b"" if kv.get("lib", "<missing>") == "nothing" else (" !macro library imported without context: %s" % kv.get("lib")).encode("latin-1", "replace")
         out = [[b"client_address", addr(kv.get("client", ""), False)]]
         if o["proto"] == 3:
             for k, want_v in o.get("expect_hdr", {}).items():
@@ -718,7 +735,7 @@ class C10(Check):
             out.append([b"headers", [2, hdrs]])
             out.append([b"method", [1, kv.get("method", "").encode()]])
         out.append([b"server_address", addr(kv.get("server", ""), True)])
-        out.append([b"uri", [1, kv.get("uri", "").encode("latin-1", "replace")]])
+        out.append([b"uri", [1, kv.get("uri", "").encode("latin-1", "replace") + lib_note]])
         return out
 
     def line(self, c, o):
@@ -753,7 +770,7 @@ class C10(Check):
     def show(self, c):
         return {"proto": ["tftp", "http", "tftp+file-handler", "http+file-handler"][c["proto"]], "bind": c["bind"],
                 "client_family": "IPv%d" % c["fam"], "pktinfo": c["pktinfo"], "name": c["name"].decode("latin-1"),
-                "mail_mode": c["mail"], "method": c["method"], "headers": c["headers"],
+                "mail_mode": c["mail"], "method": c["method"], "http_version": "1.%d" % (c.get("httpver") or 0), "headers": c["headers"],
                 "server_log_level": {None: "WARNING (default)", False: "WARNING (default)", True: "DEBUG", "info": "INFO"}.get(c.get("debug")), "restart": c.get("restart"),
                 "same_request_sent_n_times(last one observed)": c.get("repeat"),
                 "recvmsg_ancillary_data_for_this_datagram": c.get("anc_mode"), "falsy_context_objects": bool(c.get("falsy_ctx")),
